@@ -378,22 +378,23 @@ def run_check(pid, tier, seed):
     for p in lint_problems:
         problems.append(dict(kind="lint", what=p))
 
+    chk = None
     with Lock("coq"):
         err = regen_consts()
         if err:
             problems.append(dict(kind="consts", what=err))
         props = check_props(pid)
+        if tier == "thorough" and not props["failed"] and not os.environ.get("VERIF_NO_COQCHK"):
+            # same critical section as the build: a concurrent check may regenerate Consts.v
+            ok, summary = coqchk(pid)
+            chk = dict(ok=ok, summary=summary)
     for n, why in props["failed"].items():
         problems.append(dict(kind="obligation", theorem=n, what=why))
     ctx.log("coq: %d/%d obligations discharged" % (len(props["discharged"]), len(props["obligations"])))
-    chk = None
-    if tier == "thorough" and not props["failed"] and not os.environ.get("VERIF_NO_COQCHK"):
-        with Lock("coq"):
-            ok, summary = coqchk(pid)
-        chk = dict(ok=ok, summary=summary)
-        ctx.log("coqchk: %s" % ("ok" if ok else "FAILED"))
-        if not ok:
-            problems.append(dict(kind="obligation", theorem="coqchk M.props." + pid, what="coqchk rejected the compiled development: " + summary[-600:]))
+    if chk is not None:
+        ctx.log("coqchk: %s" % ("ok" if chk["ok"] else "FAILED"))
+        if not chk["ok"]:
+            problems.append(dict(kind="obligation", theorem="coqchk M.props." + pid, what="coqchk rejected the compiled development: " + chk["summary"][-600:]))
 
     results = mod.run(ctx)
     failures = []
